@@ -1038,7 +1038,23 @@ type VerifFlowWorld struct {
 	SourceFn *ssa.Function
 }
 
+// VerifBuildFlowProgram2 is VerifBuildFlowProgram with the cell's address moved through the transports cellTs.
+func VerifBuildFlowProgram2(share int, shareFirst bool, cellTs, cellVariants []int) *VerifFlowWorld {
+	return verifBuildFlowProgram(share, shareFirst, -1, 0, 0, cellTs, cellVariants)
+}
+
 func VerifBuildFlowProgram(share int, shareFirst bool, t int, variant int, storeForm int, cellT int, cellVariant int) *VerifFlowWorld {
+	if cellT < 0 {
+		return verifBuildFlowProgram(share, shareFirst, t, variant, storeForm, nil, nil)
+	}
+	return verifBuildFlowProgram(share, shareFirst, t, variant, storeForm, []int{cellT}, []int{cellVariant})
+}
+
+func verifBuildFlowProgram(share int, shareFirst bool, t int, variant int, storeForm int, cellTs, cellVariants []int) *VerifFlowWorld {
+	cellT := -1
+	if len(cellTs) > 0 {
+		cellT = cellTs[0]
+	}
 	mode := 1
 	if cellT >= 0 {
 		mode = 2 // the transports move the cell's address instead of the data
@@ -1137,8 +1153,8 @@ func VerifBuildFlowProgram(share int, shareFirst bool, t int, variant int, store
 		x = w.transport(t, x, w.A[1], variant)
 	}
 	wcell := cell // the address the writer uses: the cell's address, possibly after a transport
-	if cellT >= 0 {
-		wcell = w.transport(cellT, cell, w.A[1], cellVariant)
+	for i := range cellTs {
+		wcell = w.transport(cellTs[i], wcell, w.A[1], cellVariants[i])
 	}
 	switch storeForm {
 	case 0:
@@ -1206,6 +1222,9 @@ func (w *verifPtrWorld) setG() *ssa.Function {
 func VerifGlobalReadThroughCopy(t int) bool {
 	return t == ptInvokeCallback || t == ptGlobalViaIface || t == ptGlobalViaReturn
 }
+
+// VerifClosureTransport reports whether transport t moves the data through a closure (bound by value or by reference).
+func VerifClosureTransport(t int) bool { return t == ptCallClosure || t == ptClosureCell }
 
 // VerifSequentialTransport reports whether transport t is an explicit data operation of the sequential fragment
 // (no goroutine, channel or select involved).
